@@ -196,3 +196,40 @@ Example C03_run_func_init_escaped_pkg :
   | _ => False
   end.
 Proof. vm_compute. split; reflexivity. Qed.
+
+(* ---- the whole scan: the ScanSnapshot loop over the line reader ---- *)
+From PP Require Import Model.Reader Model.ScanSnapshot Spec.LoopSpec Proofs.LoopProofs.
+
+(* ScanSnapshot never panics, for EVERY source: any content, any delivery
+   schedule (zero-length reads, stalls), any terminal error, with or without
+   the error arriving together with data.  read_line never panics (fill is
+   never called on a full buffer), scan never panics (the invariant Inv holds
+   along the loop), and none of the model's fuels is exhausted: an iteration
+   that continues has consumed a non-empty LF-terminated line, an iteration
+   that gets an empty line ends the loop with the reader's error. *)
+Theorem C03_scan_snapshot_total : forall na src, exists res, scan_snapshot na src = Ok res.
+Proof. exact LoopProofs.scan_snapshot_total. Qed.
+Print Assumptions C03_scan_snapshot_total.
+
+(* Work is linear in the input: scan is called once per EvLine of the trace,
+   every such line is a distinct non-empty line of the input: at most one per
+   LF plus the unterminated tail. *)
+Theorem C03_work_bounded : forall na src res,
+  scan_snapshot na src = Ok res ->
+  lines_read res = handed (trace res) /\
+  lines_read res <= S (count_lf (rest src)) /\
+  lines_read res <= List.length (rest src).
+Proof. exact LoopProofs.work_bounded. Qed.
+Print Assumptions C03_work_bounded.
+
+(* A hostile source: a truncated dump, delivered with zero-length reads and
+   one byte at a time, ending with a failure instead of EOF. *)
+Example C03_run_snapshot_hostile :
+  let B := ln "goroutine 1 [running]:" ++ ln "main.main()" ++ s2b "	/tmp/x" in
+  match scan_snapshot true (mkSource B ([(0, false); (0, true); (5, false)] ++ repeat (1, false) 20 ++ [(0, false)]) (Fail 7)) with
+  | Ok res => rerr_out res = EIo (Fail 7) /\ final_state res = gotFunc /\ lines_read res = 3 /\
+              suffix res = s2b "	/tmp/x" /\ rest (unread res) = [] /\
+              option_map (@List.length _) (snap res) = Some 1
+  | Panic _ => False
+  end.
+Proof. vm_compute. repeat split. Qed.
